@@ -137,3 +137,46 @@ theorem offerChoices_avail (cfg : RCfg S) (cur : Option String) (used : List Str
         exact ⟨p, b, a1, a2, List.mem_cons_of_mem _ hm, ha⟩
 
 end Bardic
+
+namespace Bardic
+variable {S : Sem}
+
+/-- in the main engine every choice a passage offers belongs to the passage's current `@join` section -/
+theorem renderPassage_sec (c : ECfg S) (hv : c.variant = .main) (pid : String) (l l' : Live S.V) (o : Output S.V)
+    (h : renderPassage c pid l = (l', .ok o)) : ∀ ch ∈ o.choices, (ch.c.sec == l.joinSec pid) = true := by
+  unfold renderPassage at h
+  split at h
+  · cases h
+  · dsimp only at h
+    split at h
+    · cases h
+    · rename_i rs1 r hr
+      split at h
+      · cases h
+      · rename_i rs2 os hos
+        simp only [Prod.mk.injEq, Except.ok.injEq] at h
+        intro ch hch
+        rw [← h.2] at hch
+        simp only [hv] at hos
+        exact offerChoices_sec _ _ _ _ _ _ _ _ hos ch hch
+
+/-- after a `-> @join` choice the section shown offers exactly choices of the next section -/
+theorem renderFromJoinMarker_sec (c : ECfg S) (idx : Nat) (l l' : Live S.V) (o : Output S.V)
+    (h : renderFromJoinMarker c idx l = (l', .ok o)) : ∀ ch ∈ o.choices, (ch.c.sec == idx + 1) = true := by
+  unfold renderFromJoinMarker at h
+  dsimp only at h
+  split at h
+  · cases h
+  · split at h
+    · cases h
+    · split at h
+      · cases h
+      · split at h
+        · cases h
+        · rename_i rs2 os hos
+          simp only [Prod.mk.injEq, Except.ok.injEq] at h
+          intro ch hch
+          rw [← h.2] at hch
+          exact offerChoices_sec _ _ _ _ _ _ _ _ hos ch hch
+
+end Bardic
